@@ -1,6 +1,9 @@
 package larking
 
-import "unicode"
+import (
+	"unicode"
+	"unicode/utf8"
+)
 
 // Reference model of the path-template grammar (lexer.go header; DESIGN Appendix C.1/C.2), written
 // independently of larking's lexer as a recursive-descent parser over the raw string.
@@ -42,11 +45,11 @@ type refParser struct {
 	inVar  bool
 }
 
-func refIsLetter(c byte) bool { return c < 0x80 && unicode.IsLetter(rune(c)) }
-func refIsIdentByte(c byte) bool {
-	return c < 0x80 && (unicode.IsLetter(rune(c)) || unicode.IsNumber(rune(c)) || c == '_' || c == '-')
+func refIsLetterRune(r rune) bool { return unicode.IsLetter(r) }
+func refIsIdentRune(r rune) bool {
+	return unicode.IsLetter(r) || unicode.IsNumber(r) || r == '_' || r == '-'
 }
-func refIsLiteralByte(c byte) bool { return refIsIdentByte(c) || c == '.' }
+func refIsLiteralRune(r rune) bool { return refIsIdentRune(r) || r == '.' }
 
 func (p *refParser) peek() int {
 	if p.i < len(p.s) {
@@ -55,25 +58,46 @@ func (p *refParser) peek() int {
 	return -1
 }
 
+// rune at position i: ASCII bytes directly, otherwise UTF-8 decoded.
+func (p *refParser) runeAt(i int) (rune, int) {
+	if c := p.s[i]; c < utf8.RuneSelf {
+		return rune(c), 1
+	}
+	return utf8.DecodeRuneInString(p.s[i:])
+}
+
 // literal = ( letter | [number _ - .] (flagged: lexical start of a LITERAL is not documented) ) { letter | number | _ | - | . }
 func (p *refParser) literal() (string, bool) {
 	st := p.i
-	if p.i >= len(p.s) || !refIsLiteralByte(p.s[p.i]) {
+	if p.i >= len(p.s) {
 		return "", false
 	}
-	if !refIsLetter(p.s[p.i]) {
+	r, w := p.runeAt(p.i)
+	if !refIsLiteralRune(r) {
+		return "", false
+	}
+	if !refIsLetterRune(r) {
 		p.numLit = true
 	}
-	for p.i < len(p.s) && refIsLiteralByte(p.s[p.i]) {
-		p.i++
+	p.i += w
+	for p.i < len(p.s) {
+		r, w := p.runeAt(p.i)
+		if !refIsLiteralRune(r) {
+			break
+		}
+		p.i += w
 	}
 	return p.s[st:p.i], true
 }
 
 func (p *refParser) ident() (string, bool) {
 	st := p.i
-	for p.i < len(p.s) && refIsIdentByte(p.s[p.i]) {
-		p.i++
+	for p.i < len(p.s) {
+		r, w := p.runeAt(p.i)
+		if !refIsIdentRune(r) {
+			break
+		}
+		p.i += w
 	}
 	return p.s[st:p.i], p.i > st
 }
